@@ -269,6 +269,8 @@ pub struct Stats {
     pub truncated: bool,
     /// schedules among `executions` that contain a demotion
     pub demotion_schedules: u64,
+    /// executions whose first run diverged from the parent's prefix and whose repetition did not
+    pub transient_divergences: u64,
 }
 
 pub struct E2 {
@@ -322,6 +324,7 @@ impl E2 {
         let executions = AtomicU64::new(0);
         let steps = AtomicU64::new(0);
         let cap_hits = AtomicU64::new(0);
+        let transient = AtomicU64::new(0);
         let record = |ex: &Exec, sched: &[(usize, usize)]| {
             executions.fetch_add(1, Ordering::Relaxed);
             steps.fetch_add(ex.widths.len() as u64, Ordering::Relaxed);
@@ -389,7 +392,17 @@ impl E2 {
                             break;
                         }
                         let sched = &children_ref[i];
-                        let ex = run_one(scn, sched, self.seed);
+                        let mut ex = run_one(scn, sched, self.seed);
+                        // a child schedule replays its parent's execution up to the new deviation; if the replay diverges
+                        // (the deviation index does not exist) the execution is repeated: a divergence that persists is
+                        // a machinery error, one that does not is counted and reported (`transient_replay_divergences`)
+                        if ex.viols.iter().any(|(s, _)| s == "machinery/schedule-out-of-range") {
+                            let again = run_one(scn, sched, self.seed);
+                            if !again.viols.iter().any(|(s, _)| s == "machinery/schedule-out-of-range") {
+                                transient.fetch_add(1, Ordering::Relaxed);
+                                ex = again;
+                            }
+                        }
                         record(&ex, sched);
                         if keep_widths {
                             results.lock().unwrap().push((sched.clone(), ex.widths, ex.en_widths));
@@ -406,6 +419,7 @@ impl E2 {
             stats.bound_completed = 0;
         }
         stats.demotion_schedules = demotion_schedules;
+        stats.transient_divergences = transient.load(Ordering::Relaxed);
         stats.executions = executions.load(Ordering::Relaxed);
         stats.steps = steps.load(Ordering::Relaxed);
         stats.cap_hits = cap_hits.load(Ordering::Relaxed);
@@ -447,6 +461,7 @@ pub fn absorb(ctx: &mut Ctx, label: &str, out: Outcome) {
     ctx.cov_add("executions", s.executions);
     ctx.cov_add("step_cap_hits", s.cap_hits);
     ctx.cov_add("schedules_with_a_demotion", s.demotion_schedules);
+    ctx.cov_add("transient_replay_divergences", s.transient_divergences);
     ctx.cov_and("exhaustive", !s.truncated);
     ctx.sub(
         label,
